@@ -372,15 +372,28 @@ def h_serial_width(ctx, which, via="send"):
 # daliserver
 
 class FakeSocket:
-    def __init__(self, replies):
+    """A stream: each 4-byte request written (alone or together with others) is answered with one 4-byte status."""
+
+    def __init__(self, replies, reqlen=4):
         self.sent = []
         self.replies = list(replies)
+        self.buf = []
+        self.reqlen = reqlen
 
     def send(self, data):
-        self.sent.append(data)
+        for off in range(0, len(data), self.reqlen):
+            self.sent.append(data[off:off + self.reqlen])
+            if self.replies:
+                self.buf.extend(self.replies.pop(0))
+        return len(data)
+
+    sendall = send
 
     def recv(self, n):
-        return self.replies.pop(0)
+        if not self.buf:
+            raise rigs._env(RuntimeError("recv() with nothing to read: the client would block forever"))
+        out, self.buf = self.buf[:n], self.buf[n:]
+        return rigs.mkbytes(out)
 
     def close(self):
         pass
@@ -392,7 +405,7 @@ def h_daliserver(ctx, bits, twice, query):
     val = ctx.fresh("val", 0, 255)
     reply = rigs.mkbytes([2, status, val, 0])
     cmd = rigs.make_command(fr, sendtwice=twice, response=C.NumericResponse if query else None)
-    sock = FakeSocket([reply, reply])
+    sock = FakeSocket([reply, reply], 2 + bits // 8)
     saved = DS.socket
     DS.socket = types.SimpleNamespace(create_connection=lambda target: sock)
     try:
@@ -675,6 +688,13 @@ def _two_receivers(ctx, which):
     return h_two_receivers(ctx, which)
 
 
+def h_daliserver_stream(ctx):
+    """Two commands over one (or one each) daliserver connection: every request is four bytes, every status
+    message is consumed by the command it answers (shared with the pairing check)."""
+    from harness.c16_pairing import h_daliserver_history
+    return h_daliserver_history(ctx, 2)
+
+
 def cases(tier):
     cs = [Case("luba-rx", h_serial_rx, {"which": "luba"}), Case("sci-rx", h_serial_rx, {"which": "sci"}),
           Case("tridonic-rx", h_tridonic_rx, {}, install=rigs.install_tridonic_structs),
@@ -720,6 +740,8 @@ def cases(tier):
                                install=rigs.install_tridonic_structs))
                 cs.append(Case("daliserver-%d-%d%d" % (bits, twice, query), h_daliserver,
                                {"bits": bits, "twice": twice, "query": query}))
+            if bits == 16 and not twice:
+                cs.append(Case("daliserver-stream", h_daliserver_stream, {}))
             cs.append(Case("luba-tx-%d-%d" % (bits, twice), h_luba_tx, {"bits": bits, "twice": twice}))
             cs.append(Case("sci-tx-%d-%d" % (bits, twice), h_sci_tx, {"bits": bits, "twice": twice}))
             cs.append(Case("atx-%d-%d" % (bits, twice), h_atx, {"bits": bits, "twice": twice}))
